@@ -172,6 +172,9 @@ func (r *bungeeCordMessageResponder) prepareForwardMessage(in io.Reader) (forwar
 	if err != nil {
 		return
 	}
+	if messageLen < 0 {
+		return
+	}
 	msg := make([]byte, messageLen)
 	_, err = io.ReadFull(in, msg)
 	if err != nil {
